@@ -17,11 +17,33 @@ type opDef struct {
 	// prog: the transition is ALSO executed in program mode (history + this
 	// operation as one LoadString source), not only per form
 	prog bool
+	// maxLenQ / maxLenT (0 = no limit): the operation is only applied when the
+	// history, this operation included, is at most that long (quick / thorough)
+	maxLenQ, maxLenT int
+	// later: after this operation, each of laterOps is additionally applied as
+	// a SEPARATE later operation (history + this + later) and checked in full
+	later bool
+}
+
+// laterOps follow an operation flagged `later`: what the rest of a session
+// does after a call failed or its error was handled.
+var laterOps = []string{"ref:a", "set:a=2", "defun:f-reads-a", "call:f"}
+
+// laterDepth: later-operations are appended while the history, the flagged
+// operation included, is at most this long.
+const laterDepth = 3
+
+func (o *opDef) allowedAt(length int, thorough bool) bool {
+	m := o.maxLenQ
+	if thorough {
+		m = o.maxLenT
+	}
+	return m == 0 || length <= m
 }
 
 // Watched names: a (data), f (function), m (macro).  None of them is a name of
 // the language package (checked at start-up).
-var watched = []string{"a", "f", "m", "g"}
+var watched = []string{"a", "f", "m", "g", "h", "hm", "zz"}
 
 func inPkg(p string) *node           { return nCall("in-package", nQS(p)) }
 func setq(sym string, v *node) *node { return nCall("set", nQS(sym), v) }
@@ -124,6 +146,7 @@ func buildAlphabet() []*opDef {
 		{Name: "probe:dotimes:false", Class: "bind-constant:dotimes", probe: valProbe("false", "()"), src: "(dotimes (false 2) false)", tier: 1},
 	}
 	ops = append(ops, shadowOps()...)
+	ops = append(ops, errorCallOps()...)
 	for _, o := range ops {
 		if o.form != nil {
 			o.src = o.form.render()
@@ -185,6 +208,131 @@ func shadowOps() []*opDef {
 			&opDef{Name: "call:" + P + ":g", Class: "shadowed-qualified:defun-param",
 				form: nCall(P+":g", nI(10)), prog: true, tier: tP},
 		)
+	}
+	return ops
+}
+
+// errorCallOps: a call into another package whose body fails in a form that
+// is or is not the last one.  Whatever happens inside a call, when it returns
+// or fails the package that was current before it is current again: the rest
+// of the same operation and every later operation resolve names, define and
+// stamp functions in the caller's package.
+func errorCallOps() []*opDef {
+	var ops []*opDef
+	empty := nL()
+	errForm := map[string]func() *node{
+		"error":     func() *node { return nCall("error", nQS("boom"), nI(1)) },
+		"unbound":   func() *node { return nS("zz") },
+		"wrongtype": func() *node { return nCall("car", nI(5)) },
+	}
+	body := func(k, kind string, last *node) []*node {
+		switch k {
+		case "first":
+			return []*node{errForm[kind](), last}
+		case "middle":
+			return []*node{nI(1), errForm[kind](), last}
+		}
+		return []*node{nI(1), errForm[kind]()}
+	}
+	wrap := func(w string, c *node) *node {
+		switch w {
+		case "ignore-errors":
+			return nCall("ignore-errors", c)
+		case "handler-bind":
+			h := nL(nS("lambda"), nL(nS("c"), nS("&rest"), nS("d")), nI(99))
+			return nL(nS("handler-bind"), nL(nL(nS("condition"), h)), c)
+		}
+		return c
+	}
+	follow := map[string]func() *node{
+		"ref-a":   func() *node { return nS("a") },
+		"set-a":   func() *node { return setq("a", nI(16)) },
+		"defun-f": func() *node { return nCall("defun", nS("f"), empty, nS("a")) },
+		"call-f":  func() *node { return nCall("f") },
+	}
+	followNames := []string{"ref-a", "set-a", "defun-f", "call-f"}
+	wrappers := []string{"bare", "ignore-errors", "handler-bind"}
+	ks := []string{"first", "middle", "last"}
+	kinds := []string{"error", "unbound", "wrongtype"}
+
+	add := func(name, class string, form *node, tier, lq, lt int, later, prog bool) {
+		ops = append(ops, &opDef{Name: name, Class: class, form: form, tier: tier, maxLenQ: lq, maxLenT: lt, later: later, prog: prog})
+	}
+
+	// --- named callees: a function h and a macro hm defined in P
+	type named struct {
+		P, k, kind string
+		tier       int
+	}
+	for _, d := range []named{{"p", "first", "error", 0}, {"q", "middle", "unbound", 1}} {
+		add("load:"+d.P+":defun-h:"+d.k+"-"+d.kind, "defun-failing-body",
+			nCall("load-string", nP(inPkg(d.P), nL(append([]*node{nS("defun"), nS("h"), empty}, body(d.k, d.kind, nS("a"))...)...))),
+			d.tier, 3, 3, false, false)
+	}
+	for _, d := range []named{{"p", "first", "error", 0}, {"q", "middle", "wrongtype", 1}} {
+		add("load:"+d.P+":defmacro-hm:"+d.k+"-"+d.kind, "defmacro-failing-body",
+			nCall("load-string", nP(inPkg(d.P), nL(append([]*node{nS("defmacro"), nS("hm"), empty}, body(d.k, d.kind, nQS("a"))...)...))),
+			d.tier, 3, 3, false, false)
+	}
+	for _, P := range []string{"p", "q"} {
+		tier := 0
+		if P == "q" {
+			tier = 1
+		}
+		for _, fn := range []string{"h", "hm"} {
+			for _, w := range wrappers {
+				add("errcall:"+P+":"+fn+":"+w, "error-in-body:named-"+fn+":"+w, wrap(w, nCall(P+":"+fn)), tier, 0, 0, true, w != "bare")
+			}
+		}
+	}
+	for i, fw := range [][2]string{{"h", "ignore-errors"}, {"hm", "handler-bind"}} {
+		_ = i
+		for _, f := range followNames {
+			add("errcall:p:"+fw[0]+":"+fw[1]+":then:"+f, "error-in-body:named-"+fw[0]+":"+fw[1]+":then-"+f,
+				nCall("progn", wrap(fw[1], nCall("p:"+fw[0])), follow[f]()), 0, 3, 4, false, true)
+		}
+	}
+
+	// --- anonymous callees: a lambda made while P is current, called at once
+	lam := func(P, k, kind string) *node {
+		l := nL(append([]*node{nS("lambda"), empty}, body(k, kind, nS("a"))...)...)
+		return nL(nCall("load-string", nP(inPkg(P), l)))
+	}
+	quickSet := map[string]bool{"p:first:error": true, "p:middle:unbound": true, "p:last:wrongtype": true, "q:middle:error": true}
+	for _, P := range []string{"p", "q"} {
+		for _, k := range ks {
+			for _, kind := range kinds {
+				id := P + ":" + k + ":" + kind
+				tier, lq, lt := 1, 3, 3
+				if quickSet[id] {
+					tier, lq, lt = 0, 3, 4
+				}
+				for _, w := range wrappers {
+					add("errcall:lambda:"+id+":"+w, "error-in-body:lambda:"+k+":"+w, wrap(w, lam(P, k, kind)), tier, lq, lt, true, w != "bare")
+				}
+			}
+		}
+	}
+	// the rest of the SAME operation after the handled error
+	type fu struct {
+		P, k, kind string
+		tier       int
+	}
+	for _, c := range []fu{{"p", "first", "error", 0}, {"p", "middle", "unbound", 0}, {"p", "last", "wrongtype", 0},
+		{"q", "first", "wrongtype", 1}, {"q", "middle", "error", 1}} {
+		for _, w := range wrappers[1:] {
+			if c.tier == 1 && w == "handler-bind" {
+				continue
+			}
+			for _, f := range followNames {
+				lq, lt := 3, 4
+				if c.tier == 1 {
+					lt = 3
+				}
+				add("errcall:lambda:"+c.P+":"+c.k+":"+c.kind+":"+w+":then:"+f, "error-in-body:lambda:"+c.k+":"+w+":then-"+f,
+					nCall("progn", wrap(w, lam(c.P, c.k, c.kind)), follow[f]()), c.tier, lq, lt, false, true)
+			}
+		}
 	}
 	return ops
 }
